@@ -72,7 +72,7 @@ func c08Hooks(level int) limHooks {
 
 func runC08(c *Ctx) {
 	level := c.Pick(0, 1)
-	depth := c.Pick(6, 8)
+	depth := c.Pick(6, 7)
 	for _, cfg := range limGrid(1) {
 		if cfg.algo == "aimd" || cfg.initial > cfg.max {
 			continue // an initial value above the maximum is clamped by the first update whatever the RTT (C04's concern)
@@ -80,6 +80,6 @@ func runC08(c *Ctx) {
 		if cfg.initial > 100 && !c.Thorough() {
 			continue
 		}
-		c.runBFS(limModel(cfg, c08Hooks(level)), mc.BFSOptions{MaxDepth: depth, DevBound: c.Pick(1, 2), MaxStates: 300000})
+		c.runBFS(limModel(cfg, c08Hooks(level)), mc.BFSOptions{MaxDepth: depth, DevBound: c.Pick(1, 2), MaxStates: c.Pick(300000, 3000000)})
 	}
 }
